@@ -204,7 +204,10 @@ func ReadContainer(b []byte) (*Container, error) {
 		if blk.Count > 1<<22 {
 			return c, fmt.Errorf("block %d: count %d too large for the reference reader", len(c.Blocks), blk.Count)
 		}
-		if blk.Records, err = DecodeAll(c.Schema, blk.Payload, int(blk.Count)); err != nil {
+		var lf int
+		blk.Records, lf, err = DecodeAllLF(c.Schema, blk.Payload, int(blk.Count))
+		c.LongForms += lf
+		if err != nil {
 			return c, fmt.Errorf("block %d: %w", len(c.Blocks), err)
 		}
 		c.Blocks = append(c.Blocks, blk)
